@@ -140,7 +140,46 @@ def oracle_rc(case):
             return {"signature": "C14:letter-annotations", "what": "per-letter annotation %r not reversed" % key}
     if recutil.deep_snapshot(r0) != before:
         return {"signature": "C14:input-mutated", "what": "reverse_complement modified its operand"}
+    # the statement is about the record as it is now: a record edited after an earlier call is a circular record too,
+    # and editing an earlier result must not reach a later one
+    from Bio.SeqFeature import SeqFeature, FeatureLocation
+    r1.features[:] = []
+    r1.letter_annotations = {}
+    r1.seq = r1.seq[:0]
+    a, b = sorted([n // 3, (2 * n) // 3 + 1])
+    r0.features.append(SeqFeature(FeatureLocation(a, min(b, n), 1), type="added_later", qualifiers={"note": ["late"]}))
+    r3 = r0.reverse_complement()
+    if str(r3.seq) != _rc(s0):
+        return {"signature": "C14:history:sequence", "what": "a second call after editing the first result returns sequence %s" % r3.seq}
+    if _expected(r0, s0) != _table(r3):
+        return {"signature": "C14:history:features",
+                "what": "after appending a feature to the record (and clearing the first result), reverse_complement() "
+                        "reports %d features where the record has %d" % (len(r3.features), len(r0.features))}
+    if n > 1:
+        from Bio.Seq import Seq
+        s_new = s0[1:] + ("A" if s0[0] != "A" else "C")
+        r0.letter_annotations = {}
+        r0.seq = Seq(s_new)
+        r4 = r0.reverse_complement()
+        if str(r4.seq) != _rc(s_new):
+            return {"signature": "C14:history:sequence-edit",
+                    "what": "after assigning a new sequence %s, reverse_complement() returns %s" % (s_new, r4.seq)}
     return None
+
+
+def _expected(r0, s0):
+    exp = []
+    for f in r0.features:
+        parts = []
+        for w, st in _denote(s0, f.location):
+            if st in (1, -1):
+                parts.append((w, -st))
+            else:
+                parts.append((_rc(w), st))
+        if all(p.strand is None for p in f.location.parts) and len(parts) > 1:
+            parts.reverse()
+        exp.append((f.type, repr(sorted(f.qualifiers.items())), tuple(parts)))
+    return sorted(exp, key=repr)
 
 
 # ------------------------------------------------------------ driver side
